@@ -279,7 +279,16 @@ def r09_2(cx):
         cx.report('R09.2', b, 'fail-link-guard', ok, 'the failure link is followed only when the search is not anchored (%d repeating path(s))' % len(K.repeat) if ok else 'the failure link can be followed in an anchored search')
         dead = [r for r in K.rows if K.anchored_val(r) is True]
         okd = bool(dead) and all(r.end == 'return' and r.ret is not None and peel(r.ret)[0] == 'k' and peel(r.ret)[1].endswith('NFA::DEAD') and peel(r.ret)[2] == 0 for r in dead)
-        cx.report('R09.2', b, 'anchored-dead', okd, 'in anchored mode a missing transition yields DEAD' if okd else 'the anchored edge does not return DEAD')
+        # ... and DEAD is returned exactly where the unanchored search follows the failure link: every anchored DEAD path has an
+        # unanchored twin (same decisions otherwise) that repeats the loop -- an anchored search does not give up earlier
+        from acverif.sym import cstr as _cs, canon as _cn
+
+        def others(r):
+            return sorted((_cs(_cn(c)), repr(v)) for c, v in r.conds if not is_call(_cn(c), r'Anchored::is_anchored$'))
+        twins = [others(r) for r in K.repeat]
+        okt = okd and all(others(r) in twins for r in dead)
+        cx.report('R09.2', b, 'anchored-dead', okd and okt, 'in anchored mode a missing transition yields DEAD, on exactly the paths on which the unanchored search follows the failure link' if okd and okt else
+                  ('the anchored edge does not return DEAD' if not okd else 'an anchored search returns DEAD on a path where the lookup is not finished (the unanchored search would go on looking)'))
 
 
 def imp_calls(cx, outer, inner):
